@@ -332,7 +332,11 @@ func (rp *reportingPlugin) buildReportFields(ctx context.Context, previousReport
 		var maxFinalizedTimestamp uint32
 		maxFinalizedTimestamp, err = rp.reportCodec.ObservationTimestampFromReport(ctx, previousReport)
 		merr = errors.Join(merr, err)
-		rf.ValidFromTimestamp = maxFinalizedTimestamp + 1
+		if maxFinalizedTimestamp == math.MaxUint32 {
+			merr = errors.Join(merr, fmt.Errorf("previous observation timestamp is too large, got: %d", maxFinalizedTimestamp))
+		} else {
+			rf.ValidFromTimestamp = maxFinalizedTimestamp + 1
+		}
 	} else {
 		var maxFinalizedTimestamp int64
 		maxFinalizedTimestamp, err = mercury.GetConsensusMaxFinalizedTimestamp(convertMaxFinalizedTimestamp(paos), rp.f)
